@@ -127,7 +127,17 @@ def rval(rng, sparse=False):
 # the others), constant vectors, vectors without a positive entry, all-zero vectors, a single non-zero entry.  A shortcut
 # that tests sum / mean / max / any(> 0) / "all entries equal" instead of "all entries are zero" shows on them.
 SPECIALS = ["cancel", "cancel", "cancel", "dipole", "dipole", "const", "nonpos", "zero", "single"]
-def rvals(rng, n, sparse=False, e=0, special=None, spread=True, p_special=0.36):
+class Quota:
+    """no stream is left to chance: per stream key, at least one linear argument in five cancels exactly (where the size allows)"""
+    def __init__(self): self.n = {}; self.c = {}
+    def want(self, rng, key, size):
+        self.n[key] = self.n.get(key, 0) + 1
+        if size >= 2 and self.c.get(key, 0) * 5 < self.n[key]:
+            self.c[key] = self.c.get(key, 0) + 1; return rng.choice(["cancel", "dipole"])
+        return None
+QUOTA = Quota()
+def rvals(rng, n, sparse=False, e=0, special=None, spread=True, p_special=0.45, q=None):
+    if special is None and q is not None: special = QUOTA.want(rng, q, n)
     def one(sp):
         sub = (rng.choice([0, 0, 0, 0, -10, -20]) if e != 0 or rng.random() < 0.15 else 0) if spread else 0
         return rval(rng, sp) * Fraction(2) ** (e + sub)
@@ -155,12 +165,12 @@ def rvals(rng, n, sparse=False, e=0, special=None, spread=True, p_special=0.36):
     if special == "single":
         out = [Fraction(0)] * n; out[rng.randrange(n)] = nz(); return out
     return [one(sparse) for _ in range(n)]
-def rmat(rng, n, P, mag=True):
+def rmat(rng, n, P, mag=True, q=None):
     """n x P signed matrix with zeros; every COLUMN has its own magnitude and is, independently, generic or one of the
        special vectors (exactly cancelling, constant, non-positive, zero, single entry); matrix-level rare states: an
        all-zero row (a pixel that maps nowhere), a column that is minus / equal to another one, every ROW cancelling
        exactly, a one-hot 0/1 matrix (what a mapper produces; also passed as int / bool)"""
-    mode = rng.choice(["cols"] * 7 + ["negcol", "dupcol", "rowcancel", "onehot", "onehot"])
+    mode = rng.choice(["cols"] * 7 + ["negcol", "dupcol", "rowcancel", "rowcancel", "onehot", "onehot"])
     if mode == "onehot" and P >= 1 and n >= 1:
         return [[Fraction(int(j == rng.randrange(P))) for j in range(P)] if rng.random() < 0.85 else [Fraction(0)] * P for _ in range(n)]
     if mode == "rowcancel" and P >= 2 and n >= 1:
@@ -168,20 +178,25 @@ def rmat(rng, n, P, mag=True):
         cols = [rvals(rng, n, sparse=True, e=e, special="") for _ in range(P - 1)]
         cols.append([-sum(c[i] for c in cols) for i in range(n)])
     else:
-        cols = [rvals(rng, n, sparse=True, e=rexp(rng, mag)) for _ in range(P)]
-        if mode in ("negcol", "dupcol") and P >= 2:
+        forced = QUOTA.want(rng, q, n if P >= 1 else 0) if q is not None else None
+        jf = rng.randrange(P) if forced else None
+        cols = [rvals(rng, n, sparse=True, e=rexp(rng, mag), special=forced if j == jf else None) for j in range(P)]
+        if mode in ("negcol", "dupcol") and P >= 2 and not forced:
             a, b = rng.sample(range(P), 2); cols[b] = [(-v if mode == "negcol" else v) for v in cols[a]]
     M = [[cols[j][i] for j in range(P)] for i in range(n)]
     if n >= 2 and rng.random() < 0.12: M[rng.randrange(n)] = [Fraction(0)] * P
     return M
-def rcv(rng, n, e=0):
+def rcv(rng, n, e=0, q=None):
     """complex vector as (re, im) pairs; the two parts are independent (each generic or special), or the rare states:
        purely imaginary / purely real entries, im = -re (re + im cancels in every entry), im = re"""
     r = rng.random()
+    if q is not None and QUOTA.want(rng, q, n): r = 0.34
     if n >= 1 and r < 0.07: return [(Fraction(0), b) for b in rvals(rng, n, e=e, special="")]
     if n >= 1 and r < 0.14: return [(a, Fraction(0)) for a in rvals(rng, n, e=e, special="")]
     if n >= 1 and r < 0.20: return [(a, -a) for a in rvals(rng, n, e=e)]
     if n >= 1 and r < 0.24: return [(a, a) for a in rvals(rng, n, e=e)]
+    if n >= 2 and r < 0.35:           # the COMPLEX sum is exactly zero: both parts cancel
+        return list(zip(rvals(rng, n, e=e, special=rng.choice(["cancel", "dipole"])), rvals(rng, n, e=e, special=rng.choice(["cancel", "dipole", "zero"]))))
     return list(zip(rvals(rng, n, e=e), rvals(rng, n, e=e)))
 def rnoise(rng, n, e=0):
     r = rng.random()
@@ -209,6 +224,8 @@ def fits(vals, kind):
         except (OverflowError, ValueError): return False
     return False
 def pick_dt(rng, vals, kinds=("i8", "f4"), p=0.4):
+    if "b1" in kinds and fits(vals, "b1") and any(True for _ in flat(vals)):       # a 0/1 matrix: mostly passed as bool / int
+        return rng.choice(["b1", "b1", "i8", "f4", "f8"])
     k = rng.choice(list(kinds)) if rng.random() < p else "f8"
     return k if fits(vals, k) else "f8"
 NOISE_EXPS = [0, 0, 0, -20, 20, -50, 50]
@@ -302,6 +319,9 @@ def gen_util(tier, rng):
         # (f) the grid / the baselines as float32 or int64 arrays where their values allow it (lattice products stay exact)
         base = {"grid": cur["grid"], "uv": cur["uv"], "lattice": lattice,
                 "gdt": pick_dt(rng, cur["grid"], ("f4", "i8"), 0.25), "udt": pick_dt(rng, cur["uv"], ("f4", "i8"), 0.3)}
+        # np.pi is a Python float: float32 * float32 * (-2.0 * np.pi) stays float32 (cos evaluated in single precision, a
+        # property of the INPUT dtype, not a defect): never both narrow
+        if base["gdt"] == "f4" and base["udt"] == "f4": base["udt"] = "f8"
         def tabs(op):
             # tables with generic small-integer entries, or rare tables: a column (baseline) of zeros, real = -imaginary
             def make():
@@ -319,35 +339,35 @@ def gen_util(tier, rng):
         for op in util_ops:
             d = dict(base, op=op, lay=rng.choice(LAYOUTS))
             if op in ("vis",):
-                d["img"] = pick("vis_img", "values", lambda: Sv(rvals(rng, npix, sparse=(i % 3 == 0), e=rexp(rng))))
+                d["img"] = pick("vis_img", "values", lambda: Sv(rvals(rng, npix, sparse=(i % 3 == 0), e=rexp(rng), q="u.vis")))
                 d["dt"] = pick_dt(rng, d["img"])
             elif op in ("vispre", "tmmpre"):
                 for k in ("grid", "uv", "gdt", "udt"): d.pop(k)
                 d["K"] = K
                 d["preR"], d["preI"] = tabs(op)
-                if op == "vispre": d["img"] = pick("vispre_img", "values", lambda: Sv(rvals(rng, npix, sparse=(i % 3 == 0), e=rexp(rng))))
+                if op == "vispre": d["img"] = pick("vispre_img", "values", lambda: Sv(rvals(rng, npix, sparse=(i % 3 == 0), e=rexp(rng), q="u.vispre")))
                 else:
-                    d["P"] = P; d["M"] = pick("tmmpre_M", "values", lambda: Sm(rmat(rng, npix, P)))
+                    d["P"] = P; d["M"] = pick("tmmpre_M", "values", lambda: Sm(rmat(rng, npix, P, q="u.tmmpre")))
                 # at most ONE of (linear argument, tables) in a narrower dtype: the other stays float64
                 if rng.random() < 0.5: d["dt"] = pick_dt(rng, d.get("img", d.get("M")), ("i8", "f4", "b1") if op == "tmmpre" else ("i8", "f4"))
                 else: d["tdt"] = pick_dt(rng, [d["preR"], d["preI"]], ("i8", "f4"), 0.3)
             elif op == "image":
                 r = rng.random()
                 d["n"] = npix if r < 0.7 else (rng.randint(0, npix) if r < 0.85 else npix + rng.randint(1, 2))
-                d["vis"] = pick("image_vis", "values", lambda: [Sv(v) for v in rcv(rng, K, e=rexp(rng))])
+                d["vis"] = pick("image_vis", "values", lambda: [Sv(v) for v in rcv(rng, K, e=rexp(rng), q="u.image")])
                 d["dt"] = pick_dt(rng, d["vis"])
             elif op == "tmm":
-                d["P"] = P; d["M"] = pick("tmm_M", "values", lambda: Sm(rmat(rng, npix, P)))
+                d["P"] = P; d["M"] = pick("tmm_M", "values", lambda: Sm(rmat(rng, npix, P, q="u.tmm")))
                 d["dt"] = pick_dt(rng, d["M"], ("i8", "f4", "b1"))
             elif op == "data":
                 e1, e2, e3 = rexp(rng), rexp(rng), rng.choice(NOISE_EXPS)
                 d = {"op": op, "P": P, "TM": pick("data_TM", "grid", lambda: [[Sv(c) for c in rcv(rng, P, e=e1)] for _ in range(K)]),
-                     "vis": pick("data_vis", "values", lambda: [Sv(v) for v in rcv(rng, K, e=e2)]),
+                     "vis": pick("data_vis", "values", lambda: [Sv(v) for v in rcv(rng, K, e=e2, q="u.data")]),
                      "noise": pick("data_noise", "uv", lambda: [Sv(v) for v in rnoise(rng, K, e=e3)]), "lay": d["lay"]}
                 d["vdt"] = pick_dt(rng, d["vis"], ("f4",), 0.25); d["ndt"] = pick_dt(rng, d["noise"], ("f4",), 0.25)
             elif op == "recon":
                 d = {"op": op, "P": P, "TM": pick("recon_TM", "grid", lambda: [[Sv(c) for c in rcv(rng, P, e=rexp(rng))] for _ in range(K)]),
-                     "s": pick("recon_s", "values", lambda: Sv(rvals(rng, P, e=rexp(rng)))), "lay": d["lay"]}
+                     "s": pick("recon_s", "values", lambda: Sv(rvals(rng, P, e=rexp(rng), q="u.recon"))), "lay": d["lay"]}
                 d["dt"] = pick_dt(rng, d["s"])
             yield d
         if i % 2 == 0: first = cur
@@ -377,21 +397,21 @@ def gen_class(tier, rng):
         def pre(b):           # preload_transform: True, False, or the argument omitted (the default, on)
             return None if b and rng.random() < 0.35 else b
         if i % 9 == 0: yield dict(base, op="tgrid", **kinds())
-        img = Sv(rvals(rng, npix, sparse=(i % 3 == 0), e=rexp(rng)))
+        img = Sv(rvals(rng, npix, sparse=(i % 3 == 0), e=rexp(rng), q="c.tvis"))
         yield dict(base, op="tvis", preload=pre(bool(i % 2)), native=bool((i // 2) % 2), img=img,
                    idt=pick_dt(rng, img), isub=rng.random() < 0.2, ind=rng.random() < 0.5, **kinds())
-        vis = [Sv(v) for v in rcv(rng, K, e=rexp(rng))]
+        vis = [Sv(v) for v in rcv(rng, K, e=rexp(rng), q="c.timage")]
         yield dict(base, op="timage", preload=pre(bool(i % 2)), vis=vis, vform=pick_vform(rng, vis),
                    dot_img=Sv(rvals(rng, npix, e=rexp(rng))), **kinds())
         P = rng.choice([0, 1, 2, 3, 4]) if i % 5 == 0 else rng.choice([1, 2, 3])
-        if npix > 0:
-            M = Sm(rmat(rng, npix, P))
+        if True:                      # also the fully masked geometry (0 x P matrix)
+            M = Sm(rmat(rng, npix, P, q="c.ttmm"))
             yield dict(base, op="ttmm", preload=pre(bool((i // 2) % 2)), P=P, M=M, lay=rng.choice(LAYOUTS),
                        dt=pick_dt(rng, M, ("i8", "f4", "b1")), **kinds())
         if i % 2 == 1:
             # sibling entry point: SimulatorInterferometer(noise off).via_image_from builds its own TransformerDFT over
             # image.mask; the simulated data are the transform of the image
-            img = Sv(rvals(rng, npix, sparse=(i % 3 == 0), e=rexp(rng)))
+            img = Sv(rvals(rng, npix, sparse=(i % 3 == 0), e=rexp(rng), p_special=0.7, q="c.sim"))
             yield dict(base, op="sim", img=img, tclass=rng.choice(["default", "explicit", "sub"]), native=rng.random() < 0.3,
                        **dict(kinds(), tsub=False))
         if npix > 0 and K > 0 and (tier == "thorough" or i % 2 == 0):
@@ -399,12 +419,12 @@ def gen_class(tier, rng):
             objs = []
             for _ in range(nobj):
                 Pi = rng.choice([1, 1, 2, 3])
-                Mo = Sm(rmat(rng, npix, Pi, mag=(i % 4 == 0)))
+                Mo = Sm(rmat(rng, npix, Pi, mag=(i % 4 == 0), q="c.inv.M"))
                 objs.append({"P": Pi, "M": Mo, "reg": rng.random() < 0.5, "dt": pick_dt(rng, Mo, ("i8", "f4", "b1"), 0.3),
                              "cls": rng.choice(["obj", "obj", "funclist"])})
             value = rng.choice(["default", "default", "1/8", "1", "2", "0"])
             en = rng.choice(NOISE_EXPS)
-            data = [Sv(v) for v in rcv(rng, K, e=rexp(rng))]; noise = [Sv(v) for v in rnoise(rng, K, e=en)]
+            data = [Sv(v) for v in rcv(rng, K, e=rexp(rng), q="c.inv.data")]; noise = [Sv(v) for v in rnoise(rng, K, e=en)]
             # the dataset: DatasetInterface around a caller-built transformer, or aa.Interferometer(transformer_class=
             # TransformerDFT) which builds its own (preload left at its default), or a user subclass of Interferometer
             dskind = rng.choice(["interface", "interface", "interferometer", "interferometer_sub"])
@@ -413,7 +433,7 @@ def gen_class(tier, rng):
                        sibling=rng.choice(["M", "data", "noise", "reg"]) if i % 4 in (0, 2) else None,
                        dskind=dskind, settings="omitted" if value == "default" and rng.random() < 0.5 else "explicit",
                        dform=pick_vform(rng, data), nform=pick_vform(rng, noise), recon=True,
-                       preloads=rng.choice(["omitted", "explicit"]), **kinds())
+                       preloads=rng.choice(["omitted", "explicit"]), sib_inplace=rng.random() < 0.5, **kinds())
 
 # ---- histories: sibling transformers (differing in exactly ONE construction ingredient) alive in one interpreter, method
 # ---- calls interleaved, arguments reused / derived / edited in place
@@ -510,21 +530,21 @@ def gen_hist_one(rng, h=0):
             key = ("vis", npix); e = e_h if rng.random() < 0.6 else rexp(rng)
             if vals is None:
                 if key in last and rng.random() < 0.5: vals = last[key]
-                else: vals = Sv(rvals(rng, npix, sparse=rng.random() < 0.3, e=e))
+                else: vals = Sv(rvals(rng, npix, sparse=rng.random() < 0.3, e=e, q="h.vis"))
             st.update(img=vals, how=rng.choice(["slim", "native", "store_native", "sum", "scaled", "sub", "dt"]), own_mask=rng.random() < 0.5,
                       dt=pick_dt(rng, vals, p=1.0))
         elif k == "tmm":
             if vals is None:
                 P = rng.choice([1, 2, 2, 3]); key = ("tmm", npix, P)
                 if key in last and rng.random() < 0.5: vals = last[key]
-                else: vals = Sm(rmat(rng, npix, P))
+                else: vals = Sm(rmat(rng, npix, P, q="h.tmm"))
             else: P = first["P"]; key = ("tmm", npix, P)
             st.update(P=P, M=vals, how=rng.choice(["c", "f", "view"]), dt=pick_dt(rng, vals, ("i8", "f4", "b1"), 0.3))
         else:
             key = ("image", Kt)
             if vals is None:
                 if key in last and rng.random() < 0.5: vals = last[key]
-                else: vals = [Sv(v) for v in rcv(rng, Kt, e=e_h if rng.random() < 0.6 else rexp(rng))]
+                else: vals = [Sv(v) for v in rcv(rng, Kt, e=e_h if rng.random() < 0.6 else rexp(rng), q="h.image")]
             st.update(vis=vals, how=rng.choice(["fresh", "sum", "form"]), vform=pick_vform(rng, vals, 1.0))
         last[key] = vals
         return st
@@ -598,6 +618,7 @@ def gen_hist(tier, rng):
         yield gen_hist_one(rng, h)
 
 def gen_inputs(tier, rng):
+    QUOTA.__init__()
     yield from gen_util(tier, rng)
     yield from gen_class(tier, rng)
     yield from gen_hist(tier, rng)
@@ -821,7 +842,9 @@ def run_class(aa, inp, base):
             return im.native if native else im
         t = tr(inp["preload"], inp.get("tsub")); im0 = w.arg("image", image(inp["native"], plain=False))
         if not same(np.array(im0.slim, dtype=float), np.array(fl(img))): raise ValueError("harness: image does not carry the intended values")
-        out = np.array(t.visibilities_from(image=im0))
+        res = t.visibilities_from(image=im0); out = np.array(res)
+        if not (isinstance(res, aa.Visibilities) and out.dtype == np.complex128 and out.shape == (len(uv),)):
+            w.ok = False; w.why.append("visibilities_from: type / dtype / shape of the result")
         w.twice(out, lambda: np.array(t.visibilities_from(image=im0)))       # the same object evaluated twice
         # relations: preload on = off; native storage = slim storage (plain classes, plain float images)
         others = [np.array(aa.TransformerDFT(uv_wavelengths=np.array(flm(uv), dtype=float).reshape((len(uv), 2)), real_space_mask=mk_mask(aa, g),
@@ -954,8 +977,18 @@ def run_class(aa, inp, base):
             elif sib == "reg": objs_d = [dict(o, reg=not o["reg"]) for o in objs_d]
             elif sib == "data": data2 = data[1:] + data[:1] if len(set(data)) > 1 else [(a + 1, b) for a, b in data]
             else: noise2 = noise[1:] + noise[:1] if len(set(noise)) > 1 else [(a * 2, b) for a, b in noise]
-            ds2 = aa.DatasetInterface(data=aa.Visibilities(visibilities=cplx(data2)),
-                                      noise_map=aa.VisibilitiesNoiseMap(visibilities=cplx(noise2)), transformer=t)
+            if (inp.get("sib_inplace") and sib in ("data", "noise") and np.asarray(dv).dtype == np.complex128
+                    and np.asarray(nv).dtype == np.complex128 and ds.data is dv and ds.noise_map is nv):
+                # (c) the caller EDITS the dataset's own Visibilities / noise map in place and builds a new inversion over the
+                # SAME dataset object: it must see the current contents
+                w.done()
+                if sib == "data": dv[...] = cplx(data2)
+                else: nv[...] = cplx(noise2)
+                w.arg("data", dv); w.arg("noise_map", nv)
+                ds2 = ds
+            else:
+                ds2 = aa.DatasetInterface(data=aa.Visibilities(visibilities=cplx(data2)),
+                                          noise_map=aa.VisibilitiesNoiseMap(visibilities=cplx(noise2)), transformer=t)
             objs2 = [lin(o, arr2(Fm(o["M"]), o["P"])) for o in objs_d]
             inv3 = aa.InversionInterferometerMapping(dataset=ds2, linear_obj_list=objs2, **skw)
             extra.append(kinv(objs_d, data2, noise2, np.array(inv3.operated_mapping_matrix), np.array(inv3.data_vector),
